@@ -530,7 +530,7 @@ inline int run_one_in_process(const Property& prop, Src& src) {
 }
 
 struct ChildOutcome {
-    enum Kind { ok, failed, crashed, hung, blown } kind = ok;  // blown: resident memory beyond --max-rss-mb
+    enum Kind { ok, failed, crashed, hung, blown, killed } kind = ok;  // blown: resident memory beyond --max-rss-mb; killed: SIGKILL from outside (kernel OOM killer, operator) -- resource noise, never a verdict
     std::string sig;
     std::string msg;
     int signal_no = 0;
@@ -687,6 +687,13 @@ inline ChildOutcome run_child(const std::function<int()>& fn, double timeout_s, 
         out.kind = ChildOutcome::failed;
         out.sig = sh->fail_sig;
         out.msg = sh->fail_msg;
+    } else if (WIFSIGNALED(status) && WTERMSIG(status) == SIGKILL) {
+        // nothing in the code under test raises SIGKILL (the engine's own kills return above): the kernel's out-of-memory killer, a
+        // memory cgroup limit or an operator ended the child. That says nothing about the property.
+        out.kind = ChildOutcome::killed;
+        out.signal_no = SIGKILL;
+        out.sig = "killed-from-outside";
+        out.msg = "killed by signal 9 from outside the test (out-of-memory killer?)";
     } else {
         out.kind = ChildOutcome::crashed;
         out.signal_no = WIFSIGNALED(status) ? WTERMSIG(status) : 0;
@@ -723,6 +730,7 @@ inline ChildOutcome run_sequence(const Property& prop, const std::vector<uint64_
 
 inline bool same_failure(const ChildOutcome& a, const ChildOutcome& b) {
     if (b.kind == ChildOutcome::ok) return false;
+    if (a.kind == ChildOutcome::killed || b.kind == ChildOutcome::killed) return false;
     if (a.kind == ChildOutcome::crashed || a.kind == ChildOutcome::hung || a.kind == ChildOutcome::blown) return a.kind == b.kind;
     return a.kind == b.kind && a.sig == b.sig;
 }
@@ -907,6 +915,10 @@ inline int replay_main(const Property& prop) {
                 std::printf("REPLAY pass file=%s\n", opts().replay.c_str());
                 return 0;
             }
+            if (o.kind == ChildOutcome::killed) {
+                std::printf("REPLAY inconclusive file=%s %s\n", opts().replay.c_str(), o.msg.c_str());
+                return 3;
+            }
             std::printf("REPLAY fail file=%s kind=%d sig=%s msg=%s\n", opts().replay.c_str(), static_cast<int>(o.kind), o.sig.c_str(), o.msg.c_str());
             return 1;
         }
@@ -922,6 +934,10 @@ inline int replay_main(const Property& prop) {
     if (o.kind == ChildOutcome::ok) {
         std::printf("REPLAY pass file=%s\n", opts().replay.c_str());
         return 0;
+    }
+    if (o.kind == ChildOutcome::killed) {
+        std::printf("REPLAY inconclusive file=%s %s\n", opts().replay.c_str(), o.msg.c_str());
+        return 3;
     }
     std::printf("REPLAY fail file=%s kind=%d sig=%s msg=%s\n", opts().replay.c_str(), static_cast<int>(o.kind),
                 o.sig.c_str(), o.msg.c_str());
@@ -979,7 +995,7 @@ inline int run_property(const Property& prop, const std::string& rule) {
             break;
         }
         uint64_t idx = sh->case_index;
-        if (o.kind == ChildOutcome::crashed && o.signal_no == SIGKILL) {
+        if (o.kind == ChildOutcome::killed) {
             // SIGKILL is never raised by the code under test: it is the kernel's OOM killer (or an operator). Resource noise, not a verdict.
             res.notes.push_back("case " + std::to_string(idx) + ": child was killed by SIGKILL (out-of-memory killer?); case skipped");
             count("child_sigkilled");
@@ -1007,6 +1023,12 @@ inline int run_property(const Property& prop, const std::string& rule) {
             if (again.kind != ChildOutcome::hung) {
                 count("slow_case_not_reproduced");
                 if (again.kind == ChildOutcome::ok) continue;
+                if (again.kind == ChildOutcome::killed) {
+                    res.notes.push_back("case " + std::to_string(idx) + ": re-run of a slow case was killed by SIGKILL from outside; case skipped");
+                    count("child_sigkilled");
+                    res.inconclusive = true;
+                    continue;
+                }
                 o = again;  // a real failure showed instead
             } else {
                 if (opts().hang_is_violation) {
